@@ -21,6 +21,7 @@ def run(ctx: Ctx, tier: str) -> Result:
     res.rule("C01.R1", "no exception token escapes the trace callback")
     res.rule("C01.R2", "every exit of the trace callback keeps tracing on (returns the callback)")
     res.rule("C01.R3", "no mutation / state advance of host values (taint)")
+    res.rule("C01.R4", "a contained failure leaves the per-thread handler state usable and does not skip matching")
 
     entries = {}
     for f, installer, call in settrace_entries(ctx):
@@ -74,6 +75,72 @@ def run(ctx: Ctx, tier: str) -> Result:
         # ---- R2
         check_returns(ctx, res, entry, entry, set())
     res.floor("may-raise sites classified", total_sites, 25)
+
+    # ---- R4: a contained failure leaves the thread's handler state usable (tracing is not silently switched off)
+    from .common import trace_worker
+    worker, roles = trace_worker(ctx)
+    hcls = worker.cls
+    need(hcls is not None, "trace worker is not a method")
+    tl_fields = set()
+    for (cq, attr), lst in ctx.types._attr_store_index().items():
+        if cq == hcls.qname:
+            for sf, v, _ in lst:
+                if v is not None and any(k.name == "ThreadLocal" for k in ctx.types.resolve_call(v, sf).ctor) if isinstance(v, ast.Call) else False:
+                    tl_fields.add(attr)
+    res.analysed["per-thread handler state"] = sorted(tl_fields)
+    n_pop = 0
+    for f in [x for lst in hcls.methods.values() for x in lst]:
+        for fld in sorted(tl_fields):
+            def on_field(e):
+                return ("self.%s" % fld) in norm(e)
+            pops = [c for c in ctx.types.calls_in(f) if isinstance(c.func, ast.Attribute) and c.func.attr in ("pop", "popleft") and on_field(c.func.value)]
+            clears = [c for c in ctx.types.calls_in(f) if isinstance(c.func, ast.Attribute) and c.func.attr == "clear" and norm(c.func.value) == "self.%s" % fld]
+            for pc in pops:
+                n_pop += 1
+                pst = paths.stmt_of(ctx.prog, pc)
+                bad = None
+                for s_, e_ in g.unguarded_sites(f):
+                    if s_.node is pc or paths.within(ctx.prog, s_.node, pst) or not paths.dominates(ctx.prog, pst, s_.node, f):
+                        continue
+                    if any(isinstance(a, ast.Try) and any(paths.within(ctx.prog, s_.node, fb) for fb in a.finalbody)
+                           for a in ctx.prog.ancestors(s_.node, stop=f.node)):
+                        continue        # part of the clean-up itself
+                    # the failure escapes f after the pop: the emptiness clean-up must still run
+                    covered = False
+                    for c in clears:
+                        for a in ctx.prog.ancestors(c, stop=f.node):
+                            if isinstance(a, ast.Try) and any(paths.within(ctx.prog, c, fb) for fb in a.finalbody) \
+                                    and any(paths.within(ctx.prog, s_.node, b) for b in a.body + a.orelse):
+                                covered = True
+                    if clears and not covered:
+                        bad = (s_, e_)
+                        break
+                if bad:
+                    s_, e_ = bad
+                    res.fail(Finding("C01.R4", f.qname, s_.node, f.loc(s_.node),
+                                     "a failure here (after `%s`) skips the clean-up of the per-thread %s: it stays set and empty, every later "
+                                     "line/return/exception event of the thread fails before tracepoint matching - tracing is silently switched off "
+                                     "for the thread" % (norm(pc)[:50], fld), path=g.fmt_chain(sorted(e_.items())[0][1])))
+                else:
+                    res.ok("C01.R4", {"pop": norm(pc)[:60], "in": f.qname, "clean-up runs on failure": True})
+    res.floor("pops of per-thread handler state", n_pop, 1)
+    # the deferred work of earlier events runs before the matching of this event: its failure must not skip the matching
+    matchers = [c for c in ctx.types.calls_in(worker) if any(x.cls is hcls and any(
+        isinstance(n, ast.Call) and isinstance(n.func, ast.Attribute) and n.func.attr == "at_location" for n in ctx.types.nodes_in(x))
+        for x in ctx.types.resolve_call(c, worker).repo)]
+    match_call = [c for c in matchers if not any(("self.%s" % fld) in norm(cc) for fld in tl_fields for cc, _ in paths.conditions(ctx.prog, c, worker))]
+    need(match_call, "trace worker: the call that matches tracepoints against the event was not found")
+    mst = paths.stmt_of(ctx.prog, match_call[0])
+    for s_, e_ in g.unguarded_sites(worker):
+        st = paths.stmt_of(ctx.prog, s_.node)
+        if st.lineno >= mst.lineno or paths.within(ctx.prog, mst, st):
+            continue
+        if not any(("self.%s" % fld) in norm(cc) for fld in tl_fields for cc, _ in paths.conditions(ctx.prog, s_.node, worker)):
+            continue        # not the deferred work of an earlier event
+        res.fail(Finding("C01.R4", worker.qname, s_.node, worker.loc(s_.node),
+                         "a failure of `%s` (work left over from an earlier event) is only caught by the outer catch-all: the tracepoints of the "
+                         "current event are not matched" % norm(s_.node)[:60], path=g.fmt_chain(sorted(e_.items())[0][1])))
+    res.ok("C01.R4", {"matching not skipped by earlier steps": worker.loc(mst)})
 
     # ---- R3
     from . import c01_taint
